@@ -3,6 +3,7 @@
 import sys, os, json, collections
 sys.path.insert(0, '/verif/checklib')
 import runner, scenarios
+import subprocess; subprocess.run(["go","build","-tags","verif","-o","harness","."],cwd="/verif/harness",env=dict(__import__("os").environ,GOFLAGS="-mod=mod",GOPROXY="off",GOSUMDB="off",GOTOOLCHAIN="local"))
 ROOT='/verif'; LEAN='/verif/lean'
 GOENV=dict(os.environ, GOFLAGS="-mod=mod", GOPROXY="off", GOSUMDB="off", GOTOOLCHAIN="local")
 scn, flt, n = sys.argv[1], sys.argv[2], int(sys.argv[3])
